@@ -231,7 +231,7 @@ def replay(pid: str, path: str) -> int:
 def run_batch(pid: str, tier: str, seed: int) -> int:
     t0 = time.time()
     mod = load_prop(pid)
-    total = mod.budget(tier)
+    total = max(1, int(mod.budget(tier) * float(os.environ.get("VERIF_BUDGET_SCALE", "1"))))
     wall = float(os.environ.get("VERIF_WALL", mod.wall(tier) if hasattr(mod, "wall") else
                                 (90 if tier == "quick" else 900)))
     deadline = t0 + wall
